@@ -72,7 +72,7 @@ func readHeader(buf []byte, off, limit int) (hdr, clen int, ok bool) {
 			clen = clen<<8 | int(buf[p])
 			p++
 		}
-		if clen < 0x80 || clen >= 1<<31 {
+		if clen < 0x80 || clen >= 1<<30 {
 			return
 		}
 	}
